@@ -27,6 +27,7 @@ func runC05(c *Ctx) {
 	c.rule("atomic-pair", "View and ViewVersion perform exactly one atomic load each (directly or through callees) and every result derives from it; the store publishes a freshly allocated (serial, cfg) pair", 3)
 	c.rule("events-in-order", "every send on the Events channel is executed synchronously by the function that stored that version, after the store, and the update path starts no goroutine (a hand-off goroutine would deliver versions out of order)", 2)
 	c.rule("enable-result", "(shared with C09) the config and serial EnableVerification returns belong to one ViewVersion call / one monitor reply", 6)
+	c.rule("exit-on-fresh-scan", "(shared with C08) the monitor stops stacking reports only when a scan of the watching bits made for the Done event finds none: a still-watching source's reports are always stacked", 1)
 	c.rule("events-capacity", "the Events channel is created with a constant capacity of at least 1 (the writer's non-blocking send can park one version)", 1)
 
 	k := loadCore(c)
@@ -156,6 +157,7 @@ func runC05(c *Ctx) {
 	c05Serial(c, k)
 
 	// ---- atomic-pair ------------------------------------------------------------------
+	k.checkExitOnFreshScan("exit-on-fresh-scan")
 	c05Atomic(c, k)
 	c09EnableResult(c, k, k.enableHelper())
 
